@@ -276,12 +276,21 @@ def cli_conditional(out, tier):
             if ref["status"] != "ok" or len(ref["shots"]) != len(pat):
                 raise vlib.Infra("conditional-tracking template '%s' failed in process: %s" % (name, str(ref)[:300]))
             exp = collections.Counter()
-            for c, sh in zip(pat, ref["shots"]):
+            off = False
+            for k_, (c, sh) in enumerate(zip(pat, ref["shots"])):
                 if sh["echo"] != [str(c)]:
-                    raise vlib.Infra("conditional-tracking template '%s': coin %d echoed %s" % (name, c, sh["echo"]))
+                    # a fresh run given this draw echoes the coin: an execution of the multi-shot run that does not is the violation itself
+                    bad += 1
+                    off = True
+                    msg = "%s: execution %d of %d was given the draw for coin %d and echoes %s" % (name, k_ + 1, len(pat), c, sh["echo"])
+                    if bad <= 4:
+                        out.violation(msg, {"what": msg, "program": src, "branch_taken_per_shot": pat, "result": ref}, "condref%d" % n)
+                    break
                 for key, outs in (sh.get("tracked") or {}).items():
                     for o, k in outs.items():
                         exp[(key, o)] += k
+            if off:
+                continue
             if any(pat) and not exp:
                 raise vlib.Infra("conditional-tracking template '%s' records nothing in process" % name)
             for mode in ([], ["--echo=none"], ["--echo=all"]):
